@@ -1255,7 +1255,10 @@ class FileSet:
         if not self._sub_dir:
             return search_dirs
 
+        sub_dir_so_far = ""
         for subdir_chunk in self._sub_dir_chunks:
+            sub_dir_so_far = posixpath.join(sub_dir_so_far, subdir_chunk)
+
             # Sometimes there is a sub directory part that has no
             # regex/placeholders:
             if not any(True for ch in subdir_chunk
@@ -1271,13 +1274,14 @@ class FileSet:
                 continue
 
             # The sub directory covers a certain time coverage, we make
-            # sure that it is included into the search range.
-            start_check = set_time_resolution(
-                start, self._get_time_resolution(subdir_chunk)[0]
-            )
-            end_check = set_time_resolution(
-                end, self._get_time_resolution(subdir_chunk)[0]
-            )
+            # sure that it is included into the search range. The directories
+            # found so far carry the temporal placeholders of all upper
+            # levels, hence they are compared at the combined resolution (a
+            # level without temporal placeholders, e.g. {satellite}, must not
+            # coarsen the check to years).
+            resolution = self._get_time_resolution(sub_dir_so_far)[0]
+            start_check = set_time_resolution(start, resolution)
+            end_check = set_time_resolution(end, resolution)
 
             # compile the regex for this sub directory:
             regex = self._fill_placeholders(
